@@ -146,7 +146,8 @@ def handlers : List (String × (List Sexp → String)) := [
       let root ← parseStmt root
       pure (toString (Sexp.list [
         .list [.atom "jumpInFinally", b2s (JumpToSem.jumpInFinallyS root)],
-        .list [.atom "raiseInFinallyOverJump", b2s (JumpToSem.raiseInFinallyOverJumpS root)]])))
+        .list [.atom "raiseInFinallyOverJump", b2s (JumpToSem.raiseInFinallyOverJumpS root)],
+        .list [.atom "jumpInTryBodyWithElse", b2s (JumpToSem.jumpInTryBodyWithElseS root)]])))
 ]
 
 end Malt.Drv.C01J
